@@ -54,6 +54,8 @@ def run(rep):
     bmp_mask_decode(rep, fns)
     bmp_rle_subrect(rep, fns)
     png_interlace(rep, fns)
+    partial_rows_scan(rep, fns)
+    partial_rows_lib(rep, fns)
 
 
 def must_call(rep, fns):
@@ -599,3 +601,139 @@ def png_interlace(rep, fns):
     if not done:
         rep.fail_analysis("S11: png reader::read_rows not instantiated")
     rep.floor("obligations:S11", 1)
+
+
+def partial_rows_scan(rep, fns):
+    """S7b: like S7, for the BMP variants GIL cannot write itself (palette 1/4/8 bit, 15/16 bit with and without bit fields): the reader is executed
+    abstractly under a constant header, once for the whole image and once for the rectangle (X0,Y0,DX,DY)"""
+    from . import p12
+    from .ast.absexec import Stop
+    from .ir.poly import Poly
+    rep.rule("S7b bmp palette and 15/16-bit readers: the file position a sub-rectangle read takes output row y from is the position the full read takes row Y0+y from")
+    readers = [f for f in fns if f["name"].endswith("reader::apply") and fmt_of(f) == "bmp" and "file_stream_device" in f["full"] and "read_and_convert<" in f["full"]]
+    if not readers:
+        rep.fail_analysis("S7b: no bmp reader<...,read_and_convert>::apply instantiation")
+        return
+    y = Poly.atom("y")
+
+    def run(bpp, comp, partial):
+        ex = p12.ScanExec(fns)
+        ex.ranges.update({"NC": (0, 2 ** 31 - 1), "X0": (1, p12.BIG), "Y0": (1, p12.BIG), "DX": (1, p12.BIG), "DY": (1, p12.BIG)})
+        env = {"_bits_per_pixel": Poly.const(bpp), "_compression": Poly.const(comp), "_header_size": Poly.const(40), "_valid": Poly.const(1),
+               "_width": Poly.atom("W"), "_height": Poly.atom("H"), "_num_colors": Poly.atom("NC"), "_offset": Poly.atom("OFF"), "_top_down": Poly.const(0)}
+        ex.ranges["OFF"] = (54, 2 ** 20)
+        for k, v in env.items():
+            ex.env["M:_info." + k] = v
+        st = {"_top_left.x": Poly.const(0), "_top_left.y": Poly.const(0), "_dim.x": Poly.atom("W"), "_dim.y": Poly.atom("H")}
+        if partial:
+            st = {"_top_left.x": Poly.atom("X0"), "_top_left.y": Poly.atom("Y0"), "_dim.x": Poly.atom("DX"), "_dim.y": Poly.atom("DY")}
+        for k, v in st.items():
+            ex.env["M:_settings." + k] = v
+        try:
+            ex.invoke(readers[0], [])
+        except Stop as s:
+            return None, "stops with %s at line %s" % (s.why, s.line)
+        rev = p12.dedupe(ex.events)
+        seeks = [e for e in rev if e["kind"] == "seek" and len(e["loop"]) == 1 and e["to"] is not None]
+        if len(seeks) != 1:
+            return None, "%d row seeks" % len(seeks)
+        return seeks[0]["to"].subst({seeks[0]["loop"][0]["iv"]: y}), None
+    for bpp, comp, name in ((1, 0, "1bpp"), (4, 0, "4bpp"), (8, 0, "8bpp"), (16, 0, "16bpp"), (16, 3, "16bpp bitfields"), (24, 0, "24bpp"), (32, 0, "32bpp")):
+        rep.count("obligations:S7b")
+        full, e1 = run(bpp, comp, False)
+        part, e2 = run(bpp, comp, True)
+        key = "S7b:bmp:%s" % name
+        if full is None or part is None:
+            rep.fail_analysis("%s: abstract run %s" % (key, e1 or e2))
+            continue
+        want = full.subst({"y": Poly.atom("Y0") + y})
+        if part == want:
+            rep.ok("S7-partial-rows", key, {"position_of_output_row_y": repr(part)[:160]})
+        else:
+            rep.violation("S7-partial-rows", key, W + "extension/io/bmp/detail/read.hpp", {"partial_read_takes_row_y_from": repr(part)[:300], "full_read_takes_row_Y0+y_from": repr(want)[:300]})
+    rep.floor("obligations:S7b", 7)
+
+
+def partial_rows_lib(rep, fns):
+    """S7c: png (single pass) / jpeg / tiff strips: which image row the codec delivers for output row y"""
+    from . import p12
+    from .ast.absexec import Stop
+    from .ir.poly import Poly
+    rep.rule("S7c png (non-interlaced), jpeg and tiff strip readers with settings (X0,Y0,DX,DY): the image row the codec delivers for output row y is Y0+y -- "
+             "sequential codecs: rows read and discarded before the main loop == Y0 and the main loop ascends from 0; tiff: the row index passed to "
+             "read_scanline == Y0 + destination row; png additionally reads exactly H rows in total")
+    y = Poly.atom("y")
+    for fmt, fname in (("png", "reader::read_rows"), ("jpeg", "reader::read_rows"), ("tiff", "reader::read_stripped_data")):
+        cands = [f for f in fns if f["name"].endswith(fname) and fmt_of(f) == fmt and "file_stream_device" in f["full"]]
+        rep.count("obligations:S7c")
+        key = "S7c:%s:%s" % (fmt, fname.split("::")[-1])
+        if not cands:
+            rep.fail_analysis("%s: not instantiated" % key)
+            continue
+        f = cands[0]
+        ex = p12.ScanExec(fns)
+        ex.ranges.update({"X0": (1, p12.BIG), "Y0": (1, p12.BIG), "DX": (1, p12.BIG), "DY": (1, p12.BIG)})
+        ex.env["M:_info._width"] = Poly.atom("W")
+        ex.env["M:_info._height"] = Poly.atom("H")
+        ex.env["M:_number_passes"] = Poly.const(1)
+        for k, a in (("_top_left.x", "X0"), ("_top_left.y", "Y0"), ("_dim.x", "DX"), ("_dim.y", "DY")):
+            ex.env["M:_settings." + k] = Poly.atom(a)
+        try:
+            ex.invoke(f, [])
+        except Stop as st:
+            rep.fail_analysis("%s: abstract run stops with %s at line %s" % (key, st.why, st.line))
+            continue
+        ev = [e for e in ex.events if e["kind"] in ("librow", "rowstore")]
+        libs = [e for e in ev if e["kind"] == "librow"]
+        stores = [e for e in ev if e["kind"] == "rowstore" and e["loop"]]
+        if not stores or not libs:
+            rep.fail_analysis("%s: no row store / codec row read found" % key)
+            continue
+        st = stores[0]
+        main = [e for e in libs if e["loop"] == st["loop"]]
+        prob = []
+        if len(main) != 1 or st["y"] is None:
+            prob.append("main loop not recognised")
+        else:
+            lp = st["loop"][-1]
+            iv = Poly.atom(lp["iv"])
+            if main[0]["row"] is not None:
+                # explicit row index (tiff): row - dst_row == Y0
+                if main[0]["row"] - st["y"] != Poly.atom("Y0"):
+                    prob.append("read_scanline is asked for row %r while storing destination row %r" % (main[0]["row"], st["y"]))
+            else:
+                before = Poly.const(0)
+                for e in libs:
+                    if e is main[0]:
+                        break
+                    trip = e["loop"][-1].get("trip") if e["loop"] else Poly.const(1)
+                    if trip is None:
+                        prob.append("trip count of the loop at line %s not determined" % e["line"])
+                        break
+                    before = before + trip
+                if lp["init"] is None or lp["step"] != 1:
+                    prob.append("main loop does not ascend by one")
+                else:
+                    delivered = before + (iv - lp["init"])
+                    if delivered - st["y"] != Poly.atom("Y0"):
+                        prob.append("the codec delivers image row %r for destination row %r" % (delivered.subst({lp["iv"]: y}), st["y"].subst({lp["iv"]: y})))
+                if fmt == "png" and not prob:
+                    after = Poly.const(0)
+                    seen_main = False
+                    for e in libs:
+                        if e is main[0]:
+                            seen_main = True
+                            continue
+                        if seen_main:
+                            trip = e["loop"][-1].get("trip") if e["loop"] else Poly.const(1)
+                            after = (after + trip) if trip is not None else None
+                            if after is None:
+                                break
+                    total = None if after is None or lp.get("trip") is None else before + lp["trip"] + after
+                    if total != Poly.atom("H"):
+                        prob.append("rows read in total: %r (libpng needs exactly H)" % (total,))
+        if prob:
+            rep.violation("S7-partial-rows", key, R.fn_where(f), {"problems": prob})
+        else:
+            rep.ok("S7-partial-rows", key, "codec row == Y0 + destination row")
+    rep.floor("obligations:S7c", 3)
